@@ -913,6 +913,7 @@ func init() {
 			c.AuthoriseBeforeAct("C07")
 			c.ResolvedName("C07")
 			c.LosslessSplit("C07")
+			c.FirstSlashOnly("C07")
 			c.CreatedIsChecked("C07")
 			c.IdentitySource("C19")           // the name the decision is taken under is this request's authenticated name (a fresh object per call)
 			c.CredentialsRequestScoped("C19") // every decision is taken under the request's own authenticated name
